@@ -28,6 +28,8 @@ R_w3N  == SeqsUpTo(V2N, 3)               \* 40 records
 R_2x2  == [1..2 -> V2]                   \* rectangular, width 2
 R_2x2N == [1..2 -> V2N]
 R_none == {}
+R_w1   == [1..1 -> V2]
+R_w3   == [1..3 -> V2]
 R_q4   == {<<S(97)>>, <<S(97), S(97)>>, <<S(97), S(98)>>, <<S(98), S(97)>>}     \* quick tier: 4 records incl. a short one
 
 Agg(f, e) == <<"agg", f, e>>
@@ -132,6 +134,8 @@ Q_C15 == {[BaseQ EXCEPT !.items = <<E(Fa(1)), E(NRx)>>],
           [BaseQ EXCEPT !.items = <<E(NRx), <<"unnest", <<"flds", <<1, 2>>>>>> >>],
           [BaseQ EXCEPT !.items = <<E(Fa(1))>>, !.hastop = TRUE, !.top = 2],
           [BaseQ EXCEPT !.kind = "update", !.assign = << <<1, L(120)>> >>],
+          [BaseQ EXCEPT !.items = <<E(Fa(1)), E(Fb(2))>>, !.join = "inner", !.jkeys = << <<1, 1>> >>],
+          [BaseQ EXCEPT !.items = <<E(Fb(2))>>, !.join = "left", !.jkeys = << <<1, 1>> >>, !.distinct = "uniq"],
           [BaseQ EXCEPT !.items = << <<"agg", "COUNT", <<"int", 1>> >>, E(Fa(1)) >>, !.hasgroup = TRUE, !.group = <<Fa(1)>>]}
 
 \* ---------------------------------------------------------------- C14: poisoned expressions, first offending record
@@ -197,6 +201,8 @@ Q_C03two == {[BaseQ EXCEPT !.items = its, !.hasgroup = g # <<>>, !.group = g] :
 \* int / float columns: the numeric-string conversion Num(..) does not apply
 AggItemsNum == {Agg(f, Fa(2)) : f \in AggFs} \cup {Agg("SUM", <<"mul", Fa(2), <<"int", 2>> >>)}
 Q_C03num == {[BaseQ EXCEPT !.items = <<it, E(Fa(1))>>, !.hasgroup = g # <<>>, !.group = g] : it \in AggItemsNum, g \in {<<>>, <<Fa(1)>>}}
+\* zero and negative values (a running extreme of 0 must not be mistaken for "no value yet")
+R_numz == {<<k, v>> : k \in {S(97)}, v \in {D(48), Str(<<45, 50>>), D(52), Str(<<45, 55>>)}}       \* "0", "-2", "4", "-7"
 Q_C03med == {[BaseQ EXCEPT !.items = <<Agg(f, Fa(2)), E(Fa(1))>>, !.hasgroup = g # <<>>, !.group = g] :
                f \in {"MEDIAN", "VARIANCE", "AVG", "MIN", "SUM"}, g \in {<<>>, <<Fa(1)>>}}
 Q_C03bad == {[BaseQ EXCEPT !.items = <<Agg("COUNT", <<"int", 1>>)>>, !.order = <<Fa(1)>>],
